@@ -28,7 +28,8 @@ RULE = ("a case is a history of 2-6 calls on one Parallel object (managed by `wi
         "including late completions of aborted batches; plus the same histories on threading, loky and multiprocessing; plus 'clogged' failures on threading / loky "
         "(one task raises Boom / a BaseException-only class / SystemExit / KeyboardInterrupt while all its siblings stay busy for a minute, then the same object is called again, 1-3 cycles, with and without a with block); "
         "distinct_nontrivial counts distinct (configuration, history of kinds and failing positions, completion order) "
-        "with at least one failing call followed by another call")
+        "with at least one failing call followed by another call"
+        " A seventh of the scripted histories run on a backend WITHOUT a retrieval callback (the base flavour of the backend API); real process-backend histories include transport failures (result / exception / argument that cannot be pickled, an argument whose pickling raises IndexError) and falsy exception instances; two directed scenarios own their scheduling points: a completion callback of a failed call parked inside backend.batch_completed while the object is called again, and a dispatch racing with the end of a failed call (caller held after recording the failure, callback held inside _dispatch).")
 ASSUMPTIONS = [
     "exceptions carry (call tag, index), so one leaking from an earlier call is told apart",
     "TimeoutError may be multiprocessing.TimeoutError (what joblib raises), the builtin or concurrent.futures'",
